@@ -1,11 +1,17 @@
 """C16 -- alias elimination merges variable metadata soundly.
 
-Fragment under contract (real source, located structurally): in Model._simplify_once, inside
-`if options["detect_aliases"]:`, the statement `for canonical, aliases in self.alias_relation:`
-(attribute merging and elimination of alias variables).
+Code under contract (real source, located structurally on every run): in Model._simplify_once the whole
+`if options["detect_aliases"]:` block from its first statement to the end of the loop
+`for canonical, aliases in self.alias_relation:` -- grouping of the variables, the snapshot that tells
+aliases of earlier passes from new ones, the nested _detect_alias (fast path) and _make_alias, and the
+attribute-merging / elimination loop -- executed on the REAL AliasRelation (add, aliases,
+canonical_signed, copy, __iter__ are run, not assumed).  Model._expand_vectors (whole function) for the
+unset-start sentinel.
 Symbolic: own and alias bounds (each either the default infinity or any finite real), nominals,
-fixed flags, start values (default or explicit real), whether an alias was already handled in an
-earlier pass.  Enumerated: number of aliases of the canonical variable (1..3) and their signs.
+fixed flags, start values (default or explicit real).  Enumerated: number of aliases of the canonical
+variable (1..3), their signs, which of them were eliminated in an earlier pass, the kind of the
+canonical variable, and (later-pass harness) the sign pairs of an old canonical variable that becomes
+an alias.
 """
 import ast
 import math
@@ -228,37 +234,99 @@ def make_var(eng, vcls, dvcls, name, explicit_start=None):
 SIGN_SHAPES = [[1], [-1], [1, -1], [-1, -1], [-1, 1, 1]]
 
 
-def h_merge(eng):
+class EqStub(Ext):
+    """an equation residual `a + b` or `a - b` over two symbols (what alias detection's fast path recognises)"""
+    type_names = ("MX",)
+
+    def __init__(self, a, b, add):
+        self.deps, self.add = [a, b], add
+
+    def sym_getattr(self, eng, name):
+        if name == "n_dep":
+            return stub(lambda eng: 2)
+        if name == "is_op":
+            return stub(lambda eng, op: op == ("OP_ADD" if self.add else "OP_SUB"))
+        if name == "dep":
+            return stub(lambda eng, k: self.deps[k])
+        raise Unsupported("equation.%s" % name)
+
+
+def block_selector(fn):
+    """the whole detect_aliases block up to and including the attribute-merging loop"""
+    def is_opt(test, name):
+        return (isinstance(test, ast.Subscript) and isinstance(test.value, ast.Name) and test.value.id == "options"
+                and isinstance(test.slice, ast.Constant) and test.slice.value == name)
+    blk = next(n for n in ast.walk(fn) if isinstance(n, ast.If) and is_opt(n.test, "detect_aliases"))
+    loop = selector(fn)[0]
+    return blk.body[:blk.body.index(loop) + 1]
+
+
+def install_block(eng):
     eng.call_contracts.clear()
     eng.loop_specs.clear()
     from contracts.api_common import ModuleStub, CollectionsStub
-    typing = ModuleStub("typing", {})
-    eng.ext_modules.update({"casadi": CasadiStub(), "numpy": NumpyStub(), "logging": ModuleStub("logging", {"getLogger": stub(lambda eng, *a: NoOp())}),
+    base_get = CasadiStub().sym_getattr
+
+    class Cas(CasadiStub):
+        def sym_getattr(self, eng, name):
+            if name == "symvar":
+                return stub(lambda eng, eq: VList(list(eq.deps)))
+            if name in ("OP_ADD", "OP_SUB"):
+                return name
+            return base_get(eng, name)
+    eng.ext_modules.update({"casadi": Cas(), "numpy": NumpyStub(), "logging": ModuleStub("logging", {"getLogger": stub(lambda eng, *a: NoOp()), "DEBUG": 10}),
                             "itertools": ModuleStub("itertools", {}), "re": ModuleStub("re", {}), "sys": ModuleStub("sys", {"maxsize": 2 ** 63 - 1}),
                             "collections": CollectionsStub()})
-    mod = eng.load_module(MOD)
+    eng.ext_modules.pop("pymoca.backends.casadi.alias_relation", None)
+    return eng.load_module(MOD)
+
+
+def h_merge(eng):
+    """The whole detect_aliases block of the real _simplify_once -- grouping of the variables, whatever snapshot of the relation the
+    code takes to tell old aliases from new ones, the real _detect_alias fast path and _make_alias, the REAL AliasRelation, and the
+    attribute-merging loop -- for a canonical variable c (state or input) with 1..3 aliases of enumerated signs, each either
+    eliminated in an EARLIER pass (already in the relation, no longer a variable of the model) or found in THIS pass (an equation
+    c -+ a = 0 among the model's equations).  Attributes are symbolic."""
+    mod = install_block(eng)
     vcls = eng.module_global(mod, "Variable")
     dvcls = eng.module_global(mod, "_DefaultValue")
     signs = SIGN_SHAPES[eng.choice(len(SIGN_SHAPES))]
     eng.input("alias_signs", signs)
+    kind = ["state", "input"][eng.choice(2)]
+    eng.input("canonical_is", kind)
     canon = make_var(eng, vcls, dvcls, "c")
     al = [make_var(eng, vcls, dvcls, "a%d" % i) for i in range(len(signs))]
-    handled = {"a%d" % i: eng.input("a%d.handled_in_previous_pass" % i, eng.fresh_bool("handled%d" % i)) for i in range(len(signs))}
+    handled = {}
+    for i in range(len(signs)):
+        handled["a%d" % i] = bool(eng.choice(2))
+        eng.input("a%d.eliminated_in_an_earlier_pass" % i, handled["a%d" % i])
     pre = {v.fields["symbol"].label: dict(v.fields) for v in [canon] + al}
-    all_states = VDict([("c", canon)] + [("a%d" % i, a) for i, a in enumerate(al)])
-    all_states.ordered = True
-    alias_names = [("-" if s < 0 else "") + "a%d" % i for i, s in enumerate(signs)]
-    selfobj = VObj(VClass("Model"), {"alias_relation": VList([("c", VSet(list(alias_names)))])})
-    variables, values = VList(), VList()
-    locals_ = {"self": selfobj, "all_states": all_states, "old_alias_relation": OldRelation(handled),
-               "variables": variables, "values": values}
+    alias_names = [("-" if s_ < 0 else "") + "a%d" % i for i, s_ in enumerate(signs)]
+    rel = eng.call(eng.module_global(eng.load_module("pymoca.backends.casadi.alias_relation"), "AliasRelation"), [], {})
+    for i, nm in enumerate(alias_names):
+        if handled["a%d" % i]:
+            eng.call(eng.getattr(rel, "add", None, None), ["c", nm], {})
+    canon.fields["aliases"] = VSet([nm for i, nm in enumerate(alias_names) if handled["a%d" % i]])
+    groups = {g: VList([]) for g in ("states", "der_states", "alg_states", "inputs", "parameters", "constants")}
+    groups["states" if kind == "state" else "inputs"].items.append(canon)
+    if kind == "state":
+        groups["der_states"].items.append(VObj(vcls, {"symbol": MX("der(c)"), "python_type": VClass("float"), "aliases": VSet([])}))
+    eqs = []
+    for i, (s_, a) in enumerate(zip(signs, al)):
+        if not handled["a%d" % i]:
+            groups["alg_states"].items.append(a)
+            eqs.append(EqStub(canon.fields["symbol"], a.fields["symbol"], s_ < 0))
+    selfobj = VObj(eng.module_global(mod, "Model"), dict(groups, alias_relation=rel, equations=VList(eqs), initial_equations=VList([])))
+    options = VDict([("detect_aliases", True), ("expand_vectors", False), ("expand_mx", False), ("allow_derivative_aliases", True)])
     try:
-        eng.exec_fragment(MOD, "Model._simplify_once", selector, locals_, label="alias-attribute-merge")
+        fr = eng.exec_fragment(MOD, "Model._simplify_once", block_selector, {"self": selfobj, "options": options}, label="alias-attribute-merge")
     except PyRaise as e:
         eng.prove("merge.no_exception", False, exc=repr(e.exc))
         return
     eng.cover("merge.done")
     eng.prove("merge.no_exception", True)
+    all_states, variables, values = fr.locals["all_states"], fr.locals["variables"], fr.locals["values"]
+    handled = {k: z3.BoolVal(v) for k, v in handled.items()}
     # ---------------- (P) expected values, over the aliases that are processed in this pass
     m, M, nom = pre["c"]["min"], pre["c"]["max"], pre["c"]["nominal"]
     fixed = pre["c"]["fixed"]
@@ -298,7 +366,7 @@ def h_merge(eng):
     for i, (s, a) in enumerate(zip(signs, al)):
         h = handled["a%d" % i]
         present = ops.contains_expr(eng, all_states, "a%d" % i)
-        eng.prove("merge.processed_alias_removed_from_states", z3.BoolVal(bool(present)) == h)
+        eng.prove("merge.processed_alias_removed_from_states", z3.BoolVal(present is False))
         cnt = sum(1 for x in variables.items if x is a.fields["symbol"])
         eng.prove("merge.processed_alias_substituted_once", z3.If(h, z3.BoolVal(cnt == 0), z3.BoolVal(cnt == 1)))
         for x, val in zip(variables.items, values.items):
@@ -306,6 +374,8 @@ def h_merge(eng):
                 want = "(%r*c)" % s
                 eng.prove("merge.alias_bound_to_signed_canonical", z3.BoolVal(isinstance(val, MX) and val.label == want))
     eng.prove("merge.canonical_kept", z3.BoolVal(ops.contains_expr(eng, all_states, "c") is True))
+    got_al = got.get("aliases")
+    eng.prove("merge.canonical_lists_the_whole_signed_class", z3.BoolVal(isinstance(got_al, VSet) and set(got_al.items) == set(alias_names)), got=repr(getattr(got_al, "items", got_al)))
 
 
 MODEL = "pymoca.backends.casadi.model"
@@ -373,22 +443,118 @@ def h_start_sentinel_survives_expansion(eng):
     eng.prove("merge.start_default_sentinel_survives_vector_expansion", z3.BoolVal(bool(ok)), starts=[repr(v.fields.get("start")) for v in new])
 
 
-HARNESSES = [("Model._simplify_once#alias-attribute-merge", h_merge), ("Model._expand_vectors keeps the unset-start sentinel", h_start_sentinel_survives_expansion)]
-EXPECTED_COVER = {"merge.done", "sentinel.done"}
+# what a LATER detect_aliases pass finds: (kind of the new canonical variable, sign of the new alias equation,
+# sign with which the variable eliminated in the earlier pass hangs on the old canonical variable)
+LATER_PASS = [(kind, neg, oldneg) for kind in ("state", "input", "algebraic") for neg in (False, True) for oldneg in (False, True)]
+
+
+def h_merge_in_a_later_pass(eng):
+    """The detect_aliases block as a whole (real code from the grouping of the variables, the snapshot of the relation and the real
+    _detect_alias / _make_alias closures to the merge loop) on the REAL AliasRelation, in a pass that follows an earlier one:
+    B was the canonical variable of {B, (+-)A} and A is gone from the model; now an equation x (+-) B = 0 makes B an alias of x.
+    B's attributes -- which already hold A's share -- must be merged into x with the sign of THIS alias, B must be eliminated,
+    and A (eliminated earlier, no longer a variable) must be left alone; a fresh alias y of x found in the same pass is merged too."""
+    mod = install_block(eng)
+    vcls = eng.module_global(mod, "Variable")
+    dvcls = eng.module_global(mod, "_DefaultValue")
+    kind, neg, oldneg = LATER_PASS[eng.choice(len(LATER_PASS))]
+    eng.input("new_canonical_is", kind)
+    eng.input("new_alias_equation", "x + B = 0" if neg else "x - B = 0")
+    eng.input("earlier_pass", "B = -A" if oldneg else "B = A")
+    x = make_var(eng, vcls, dvcls, "x")
+    B = make_var(eng, vcls, dvcls, "B")
+    y = make_var(eng, vcls, dvcls, "y")
+    pre = {v.fields["symbol"].label: dict(v.fields) for v in (x, B, y)}
+    rel = eng.call(eng.module_global(eng.load_module("pymoca.backends.casadi.alias_relation"), "AliasRelation"), [], {})
+    eng.call(eng.getattr(rel, "add", None, None), ["B", "-A" if oldneg else "A"], {})
+    B.fields["aliases"] = VSet(["-A" if oldneg else "A"])
+    groups = {g: VList([]) for g in ("states", "der_states", "alg_states", "inputs", "parameters", "constants")}
+    # an algebraic x can only become the canonical variable when it is the second operand... the real _make_alias decides; for the
+    # algebraic case x is given a (non-eliminable) alias history instead: it is what survives because B is eliminated first
+    groups[{"state": "states", "input": "inputs", "algebraic": "alg_states"}[kind]].items.append(x)
+    if kind == "state":
+        dx = VObj(vcls, {"symbol": MX("der(x)"), "python_type": VClass("float"), "aliases": VSet([])})
+        groups["der_states"].items.append(dx)
+    groups["alg_states"].items.extend([B, y])
+    eqs = [EqStub(x.fields["symbol"], B.fields["symbol"], neg), EqStub(x.fields["symbol"], y.fields["symbol"], False)]
+    selfobj = VObj(eng.module_global(mod, "Model"), dict(groups, alias_relation=rel, equations=VList(eqs), initial_equations=VList([])))
+    options = VDict([("detect_aliases", True), ("expand_vectors", False), ("expand_mx", False), ("allow_derivative_aliases", True)])
+    try:
+        fr = eng.exec_fragment(MOD, "Model._simplify_once", block_selector, {"self": selfobj, "options": options}, label="detect-aliases-block")
+    except PyRaise as e:
+        eng.prove("later.no_exception", False, exc=repr(e.exc))
+        return
+    eng.cover("later.done")
+    eng.prove("later.no_exception", True)
+    canon_of_B = eng.call(eng.getattr(rel, "canonical_signed", None, None), ["B"], {})
+    cname = canon_of_B[0] if isinstance(canon_of_B, tuple) else None
+    # a state or an input is never eliminated; of two algebraic variables either may survive (the statement is about the survivor)
+    eng.prove("later.survivor_is_allowed", z3.BoolVal(cname == "x" or (cname in ("B", "y") and kind == "algebraic")), canonical=repr(canon_of_B))
+    if cname not in ("x", "B", "y"):
+        return
+    all_states, variables, values = fr.locals["all_states"], fr.locals["variables"], fr.locals["values"]
+    sB = -1 if neg else 1
+    byname = {"x": x, "B": B, "y": y}
+    # signs relative to the survivor: x = sB * B, y = x
+    val = {"x": 1, "B": sB, "y": 1}
+    rel_sign = {nm: val[nm] * val[cname] for nm in ("x", "B", "y") if nm != cname}
+    c = byname[cname]
+    m, M = pre[cname]["min"], pre[cname]["max"]
+    nom, fixed = pre[cname]["nominal"], pre[cname]["fixed"]
+    starts = []
+    for nm, sgn in rel_sign.items():
+        v, p_ = byname[nm], pre[nm]
+        m = xmax(m, p_["min"] if sgn == 1 else xneg(p_["max"]))
+        M = xmin(M, p_["max"] if sgn == 1 else xneg(p_["min"]))
+        nom = xmax(nom, p_["nominal"])
+        fixed = z3.Or(fixed, p_["fixed"])
+        if v.has_start:
+            starts.append(p_["start"] if sgn == 1 else -p_["start"])
+    got = c.fields
+    eng.prove("later.min_is_intersection_with_the_newly_aliased_variables", xeq(got["min"], m))
+    eng.prove("later.max_is_intersection_with_the_newly_aliased_variables", xeq(got["max"], M))
+    eng.prove("later.nominal_is_largest", _num(got["nominal"]) == nom)
+    eng.prove("later.fixed_if_any_fixed", (_num(_unbool(got["fixed"])) != 0) == fixed)
+    gs = got["start"]
+    if c.has_start:
+        eng.prove("later.own_start_kept", z3.BoolVal(not isinstance(gs, VObj)) if isinstance(gs, VObj) else _num(gs) == _num(pre[cname]["start"]))
+    elif not starts:
+        eng.prove("later.start_from_alias", z3.BoolVal(isinstance(gs, VObj)))
+    else:
+        # the aliases are visited in the relation's set order: either explicit start is an alias's start
+        eng.prove("later.start_from_alias", z3.BoolVal(False) if isinstance(gs, VObj) else z3.Or([_num(gs) == s_ for s_ in starts]))
+    for nm, sgn in rel_sign.items():
+        v = byname[nm]
+        eng.prove("later.newly_aliased_variable_is_eliminated", z3.BoolVal(ops.contains_expr(eng, all_states, nm) is False), variable=nm)
+        hits = [val for var, val in zip(variables.items, values.items) if var is v.fields["symbol"]]
+        eng.prove("later.newly_aliased_variable_substituted_once_by_signed_canonical",
+                  z3.BoolVal(len(hits) == 1 and isinstance(hits[0], MX) and hits[0].label == "(%r*%s)" % (sgn, cname)), variable=nm)
+    eng.prove("later.canonical_kept", z3.BoolVal(ops.contains_expr(eng, all_states, cname) is True))
+    eng.prove("later.variable_eliminated_in_the_earlier_pass_is_not_touched", z3.BoolVal(not any(isinstance(var, MX) and var.label == "A" for var in variables.items)))
+    al = got.get("aliases")
+    sA = val["B"] * val[cname] * (-1 if oldneg else 1)
+    want = {("-" if sg < 0 else "") + nm for nm, sg in rel_sign.items()} | {("-" if sA < 0 else "") + "A"}
+    eng.prove("later.canonical_lists_the_whole_signed_class", z3.BoolVal(isinstance(al, VSet) and set(al.items) == want), got=repr(getattr(al, "items", al)))
+
+
+HARNESSES = [("Model._simplify_once#alias-attribute-merge", h_merge), ("Model._expand_vectors keeps the unset-start sentinel", h_start_sentinel_survives_expansion),
+             ("Model._simplify_once#detect-aliases-block in a later pass, real AliasRelation", h_merge_in_a_later_pass)]
+EXPECTED_COVER = {"merge.done", "sentinel.done", "later.done"}
 BOUNDED = True
 LEVEL = "proof"
 TRUSTED = ["pyvc VC generator", "z3 5.1.0", "ca.fmax / ca.fmin are max / min on (extended) reals; ca.MX(x).is_constant() for numbers",
-           "AliasRelation.__iter__ yields (canonical, aliases) per class (C17); all_states maps every alias name to its Variable"]
+           "AliasRelation.__iter__ yields (canonical, aliases) per class (C17; in the later-pass harness the real AliasRelation methods are executed); all_states maps every alias name to its Variable (fragment harness; the later-pass harness builds it with the real code)"]
 ASSUMPTIONS = [
-    "a canonical variable with 1..3 aliases, sign patterns enumerated ([+], [-], [+,-], [-,-], [-,+,+]); bounds are the default infinity or any finite real; nominals >= 0",
+    "a canonical variable (state or input) with 1..3 aliases, sign patterns enumerated ([+], [-], [+,-], [-,-], [-,+,+]), every split into aliases of an earlier pass and of this pass; bounds are the default infinity or any finite real; nominals >= 0",
+    "alias equations of this pass are two-symbol sums / differences (the fast path of _detect_alias); the substitute-based slow path is C14's subject",
     "the start-conflict warning branch only logs (its MX comparisons are opaque)",
     "python_type propagation is not part of the statement and is not checked",
 ]
 DROPPED = ["logger.warning text"]
-EXPLANATION = "Fragment contract for the attribute-merging loop of alias elimination over symbolic reals with infinite defaults."
+EXPLANATION = "Contract for the whole detect_aliases block (snapshot, detection fast path, _make_alias, real AliasRelation, attribute-merging loop) over symbolic reals with infinite defaults."
 MANIFEST = {
     "category": "proof",
-    "text": "The attribute-merging loop of alias elimination (extracted structurally from the real _simplify_once on every run) is executed symbolically for arbitrary real bounds (finite or default infinite), nominals, fixed flags, start values and 'already handled' flags, for canonical variables with 1-3 aliases of enumerated sign patterns: the resulting min/max are the intersection with min/max swapped and negated for negative aliases, nominal the largest, fixed iff any fixed, start kept or taken sign-adjusted from the first alias that has one; each processed alias is removed and substituted by sign*canonical exactly once. The step that runs before the merge under expand_vectors, _expand_vectors (whole function), is verified to hand the array's unset-start sentinel (_DefaultValue) and an explicit start to every element unchanged, so 'had no start of its own' means the same for array elements. A bounded replay checks the same on real models through simplify().",
-    "note": "Fragment, not whole function: what precedes the loop (all_states total on alias names, old_alias_relation a copy) is assumed; alias counts and sign patterns enumerated; ca.fmax/fmin assumed to be max/min.",
+    "text": "The detect_aliases block of the real _simplify_once (extracted structurally on every run: variable grouping, the snapshot that separates aliases of earlier passes, the nested _detect_alias fast path and _make_alias, and the attribute-merging loop, over the real AliasRelation class) is executed symbolically for arbitrary real bounds (finite or default infinite), nominals, fixed flags and start values, for canonical variables with 1-3 aliases of enumerated sign patterns, each alias either eliminated in an earlier pass or found in this one, and for an old canonical variable that becomes an alias of a state / input / algebraic variable in a later pass: the resulting min/max are the intersection with min/max swapped and negated for negative aliases, nominal the largest, fixed iff any fixed, start kept or taken sign-adjusted from the first alias that has one; each processed alias is removed and substituted by sign*canonical exactly once. The step that runs before the merge under expand_vectors, _expand_vectors (whole function), is verified to hand the array's unset-start sentinel (_DefaultValue) and an explicit start to every element unchanged, so 'had no start of its own' means the same for array elements. A bounded replay checks the same on real models through simplify().",
+    "note": "alias counts, sign patterns and pass histories enumerated (1-3 aliases, one earlier pass); alias equations limited to the two-symbol fast path; ca.fmax/fmin assumed to be max/min; python_type propagation not judged.",
     "technique": "contract-based deductive verification: structural fragment extraction + symbolic execution over reals with distinguished infinities, z3",
 }
